@@ -112,10 +112,15 @@ Definition handle_xlog (s : cstate) (wal : N) (k : xkind) : cstate * list cobs *
   | XChange op => (s, [COut op (ctxn s) (ckey s) wal], false)
   end.
 
-(* recoverFromErrorResponse *)
+(* recoverFromErrorResponse: the synthetic COMMIT closes out a transaction only if one is open
+   (a BEGIN was forwarded and no COMMIT followed); it is stamped with the highest COMMIT position
+   received, or with the already acknowledged position when none was received yet *)
 Definition recover (s : cstate) (xlogpos : N) : cstate * list cobs :=
+  let o := if negb (first_iter s) && negb (saw_commit s)
+           then [COut "COMMIT" (ctxn s) (ckey s) (if (highest s =? 0)%N then overall s else highest s)]
+           else [] in
   (mkCst (overall s) xlogpos (ctxn s) (ckey s) false true false (hb_count s) (hb_slow s) (begins s) false,
-   [COut "COMMIT" (ctxn s) (ckey s) (highest s); CClose; CGetPlain true; CIdentify; CClose]).
+   o ++ [CClose; CGetPlain true; CIdentify; CClose]).
 
 (* handlePrimaryKeepaliveMessage after the forced status update *)
 Definition heartbeat (s : cstate) (slow : bool) : cstate * bool (* fatal: rapid requests *) :=
